@@ -80,3 +80,75 @@ Theorem C03_spec_parser : forall p c, PInv p -> feedM p c = Ok (spec_feed p c).
 Proof. exact spec_feed_is_feedM. Qed.
 Check C03_spec_parser : forall p c, PInv p -> feedM p c = Ok (spec_feed p c).
 Print Assumptions C03_spec_parser.
+
+From Avt Require Import Proofs.ParamsWritten Gen.RestFns Proofs.BufTie Proofs.ParserFnsTie.
+(** SOURCE TIE BY PROOF (translate/rest2coq.py -> Gen/RestFns.v): the Rust function is REGENERATED on every run (u8/u16/u32/char as N with exact casts, isize as Z with guards on `as usize`, loops as folds or fuelled fixpoints, every Rust panic condition as a guard) and the hand-written model function is proved equal to it (=~ : equal up to the panic-site number) *)
+Local Open Scope N_scope.
+(** C03.8 the parameters as written, for EVERY parameter text within the capacity (<= 32 parameters of <= 6 ':'-parts, any number of digits each) and from EVERY prior parser state, 7- and 8-bit introducer: slot i part j holds the decimal value mod 65536, missing = 0 (a leading ':' right after the introducer sends the sequence to CsiIgnore - excluded by the hypothesis, pinned by the example colon_first_is_ignored) *)
+Theorem C03_params_written : forall (t : ptext) p, PInv p -> wf_text t -> hd 0 (render t) <> 58 -> exists p', runP p (155 :: render t) = Ok (p', []) /\ runP p (27 :: 91 :: render t) = Ok (p', []) /\ params p' = written_block t /\ cur_param p' = written_cur t /\ inter p' = None /\ pst p' = match render t with [] => CsiEntry | _ => CsiParam end.
+Proof. exact C03_params_written_fresh. Qed.
+Check C03_params_written : forall (t : ptext) p, PInv p -> wf_text t -> hd 0 (render t) <> 58 -> exists p', runP p (155 :: render t) = Ok (p', []) /\ runP p (27 :: 91 :: render t) = Ok (p', []) /\ params p' = written_block t /\ cur_param p' = written_cur t /\ inter p' = None /\ pst p' = match render t with [] => CsiEntry | _ => CsiParam end.
+Print Assumptions C03_params_written.
+
+(** C03.9 beyond the capacity, for texts of ANY length: further ';' / ':' are dropped and the digits run on into the last slot / part (spec_block) *)
+Theorem C03_params_saturate : forall (t : ptext) p, PInv p -> digits_only t -> hd 0 (render t) <> 58 -> exists p', runP p (155 :: render t) = Ok (p', []) /\ runP p (27 :: 91 :: render t) = Ok (p', []) /\ params p' = spec_block t /\ cur_param p' = spec_cur t /\ inter p' = None /\ pst p' = match render t with [] => CsiEntry | _ => CsiParam end.
+Proof. exact C03_params_saturate_fresh. Qed.
+Check C03_params_saturate : forall (t : ptext) p, PInv p -> digits_only t -> hd 0 (render t) <> 58 -> exists p', runP p (155 :: render t) = Ok (p', []) /\ runP p (27 :: 91 :: render t) = Ok (p', []) /\ params p' = spec_block t /\ cur_param p' = spec_cur t /\ inter p' = None /\ pst p' = match render t with [] => CsiEntry | _ => CsiParam end.
+Print Assumptions C03_params_saturate.
+
+(** C03.10 every final byte after any parameter text dispatches exactly the function of the table on the block as written, parser back in Ground *)
+Theorem C03_params_dispatch : forall (t : ptext) p c, PInv p -> wf_text t -> hd 0 (render t) <> 58 -> 64 <= c <= 126 -> exists p', runP p (155 :: render t ++ [c]) = Ok (p', opt_cons (csi_spec (written_block t) (written_cur t) None c) []) /\ runP p (27 :: 91 :: render t ++ [c]) = Ok (p', opt_cons (csi_spec (written_block t) (written_cur t) None c) []) /\ pst p' = Ground.
+Proof. exact C03_params_written_dispatch. Qed.
+Check C03_params_dispatch : forall (t : ptext) p c, PInv p -> wf_text t -> hd 0 (render t) <> 58 -> 64 <= c <= 126 -> exists p', runP p (155 :: render t ++ [c]) = Ok (p', opt_cons (csi_spec (written_block t) (written_cur t) None c) []) /\ runP p (27 :: 91 :: render t ++ [c]) = Ok (p', opt_cons (csi_spec (written_block t) (written_cur t) None c) []) /\ pst p' = Ground.
+Print Assumptions C03_params_dispatch.
+
+Local Close Scope N_scope.
+
+(** Parser::param (';' / ':' / digit) regenerated *)
+Theorem C03_source_param : forall p c, g_parser_param p c =~ paramM p c.
+Proof. exact tie_parser_param. Qed.
+Check C03_source_param : forall p c, g_parser_param p c =~ paramM p c.
+Print Assumptions C03_source_param.
+
+(** Parser::clear regenerated *)
+Theorem C03_source_clear : forall p, g_parser_clear p =~ clearM p.
+Proof. exact tie_parser_clear. Qed.
+Check C03_source_clear : forall p, g_parser_clear p =~ clearM p.
+Print Assumptions C03_source_clear.
+
+(** Parser::collect regenerated *)
+Theorem C03_source_collect : forall p c, g_parser_collect p c = Ok (collect p c).
+Proof. exact tie_parser_collect. Qed.
+Check C03_source_collect : forall p c, g_parser_collect p c = Ok (collect p c).
+Print Assumptions C03_source_collect.
+
+(** Param::add_digit regenerated (u32 arithmetic, `as u16` truncation) *)
+Theorem C03_source_add_digit : forall p d, g_param_add_digit p d =~ okM (param_add_digit_ok p) (param_add_digit d p).
+Proof. exact tie_param_add_digit. Qed.
+Check C03_source_add_digit : forall p d, g_param_add_digit p d =~ okM (param_add_digit_ok p) (param_add_digit d p).
+Print Assumptions C03_source_add_digit.
+
+(** Param::add_part regenerated *)
+Theorem C03_source_add_part : forall p, g_param_add_part p = Ok (param_add_part p).
+Proof. exact tie_param_add_part. Qed.
+Check C03_source_add_part : forall p, g_param_add_part p = Ok (param_add_part p).
+Print Assumptions C03_source_add_part.
+
+(** Param::clear regenerated *)
+Theorem C03_source_param_clear : forall p, g_param_clear p =~ okM (param_clear_ok p) (param_clear p).
+Proof. exact tie_param_clear. Qed.
+Check C03_source_param_clear : forall p, g_param_clear p =~ okM (param_clear_ok p) (param_clear p).
+Print Assumptions C03_source_param_clear.
+
+(** Param::as_u16 regenerated (the model is total where the fixed array cannot be short: condition stated) *)
+Theorem C03_source_as_u16 : forall p, g_param_as_u16 p =~ okM (0 <? length (parts p)) (as_u16 p).
+Proof. exact tie_param_as_u16. Qed.
+Check C03_source_as_u16 : forall p, g_param_as_u16 p =~ okM (0 <? length (parts p)) (as_u16 p).
+Print Assumptions C03_source_as_u16.
+
+(** Param::parts regenerated *)
+Theorem C03_source_parts : forall p, g_param_parts p =~ okM (cur_part p <? length (parts p)) (pparts p).
+Proof. exact tie_param_parts. Qed.
+Check C03_source_parts : forall p, g_param_parts p =~ okM (cur_part p <? length (parts p)) (pparts p).
+Print Assumptions C03_source_parts.
+
